@@ -69,13 +69,13 @@ def swap_axes(self, axis1, axis2, recursive=True):
 
     # Validate first axis
     len_shape = len(self._shape_)
-    a1 = axis1 % len_shape
+    a1 = axis1 + len_shape if axis1 < 0 else axis1
     if a1 < 0 or a1 >= len_shape:
         raise ValueError('axis1 out of range (%d,%d) in %s.swap_axes(): %d'
                          % (-len_shape, len_shape, type(self).__name__, axis1))
 
     # Validate second axis
-    a2 = axis2 % len_shape
+    a2 = axis2 + len_shape if axis2 < 0 else axis2
     if a2 < 0 or a2 >= len_shape:
         raise ValueError('axis2 out of range (%d,%d) in %s.swap_axes(): %d'
                          % (-len_shape, len_shape, type(self).__name__, axis2))
